@@ -5,6 +5,8 @@ transforms mirrored), paired property by paired property; plus the Lean theorem 
 counts / bases / proportions.
 """
 import copy
+import itertools
+from fractions import Fraction
 import common
 import gen
 from props import _slice_common as sc
@@ -27,6 +29,36 @@ RULE = ("random 2-D designs over every pairing of cat/cat_date/datetime/text/mr 
         "non-square or asymmetric count matrix with >=2 distinct values; distinct = (kinds, transforms, counts)")
 ASSUMPTIONS = ["direction-specific measures with no twin (column index, pairwise tests, smoothing) are excluded by the property itself"]
 
+def _transpose_flat(flat, shapeA, shapeB):
+    """flat row-major data of a tensor with axes (A..., B...) -> axes (B..., A...)"""
+    shape = shapeA + shapeB
+    out = []
+    for ixb in itertools.product(*[range(n) for n in shapeB]):
+        for ixa in itertools.product(*[range(n) for n in shapeA]):
+            pos = 0
+            for n, i in zip(shape, list(ixa) + list(ixb)):
+                pos = pos * n + i
+            out.append(flat[pos])
+    return out
+
+
+def _mirror_dim(d):
+    """a dimension's transforms as they read on the exchanged axis: direction-specific measure keywords swap"""
+    d = copy.deepcopy(d)
+    o = d.get("order")
+    if isinstance(o, dict) and isinstance(o.get("measure"), str):
+        m = o["measure"]
+        if m.startswith("row_"):
+            o["measure"] = "col_" + m[4:]
+        elif m.startswith("col_") and m != "col_index":
+            o["measure"] = "row_" + m[4:]
+    return d
+
+
+def _payload(data):
+    return [{"?": -1} if x is None else gen.num(Fraction(x)) for x in data]
+
+
 PAIRED = [  # (row-direction property, column-direction property)
     ("row_proportions", "column_proportions"), ("row_percentages", "column_percentages"),
     ("row_std_err", "column_std_err"), ("row_std_dev", "column_std_dev"),
@@ -41,11 +73,12 @@ PAIRED = [  # (row-direction property, column-direction property)
     ("inserted_row_idxs", "inserted_column_idxs"), ("diff_row_idxs", "diff_column_idxs"),
     ("derived_row_idxs", "derived_column_idxs"),
     ("rows_dimension_type", "columns_dimension_type"), ("rows_dimension_name", "columns_dimension_name"),
+    ("row_share_sum", "column_share_sum"),
 ]
 FREE = ["counts", "unweighted_counts", "table_proportions", "table_percentages", "table_std_err", "table_std_dev",
         "table_proportion_variances", "table_proportions_moe", "zscores", "pvals", "population_counts",
         "population_counts_moe", "table_weighted_bases", "table_unweighted_bases", "table_base", "table_margin",
-        "table_base_range", "table_margin_range", "is_empty"]
+        "table_base_range", "table_margin_range", "is_empty", "total_share_sum", "sums", "means", "stddev"]
 
 KINDS = ["cat", "cat", "mr", "mr", "cat_date", "datetime", "text"]
 
@@ -87,13 +120,56 @@ def gen_dim_transforms(rng, v, with_order=True):
 
 
 def gen_case(rng):
-    fam = rng.choice(["two", "two", "two", "ca"])
-    if fam == "two":
+    from props import c05
+    fam = rng.choice(["two", "two", "two", "ca", "sortins"])
+    if fam == "sortins":
+        # both axes carry several subtotals and one axis is sorted by an insertion of the other
+        case = sc.gen_case(rng, kinds=["cat", rng.choice(["cat", "cat_date"])], max_n=4)
+        vars_, _ = sc.load(case)
+        dims = []
+        for v in vars_:
+            ids = sc.valid_ids(v)
+            ins = []
+            for n in range(rng.randint(2, 3)):
+                ins.append({"function": "subtotal", "args": rng.sample(ids, rng.randint(1, len(ids))),
+                            "anchor": rng.choice(["top", "bottom"] + ids), "name": "S%d" % n, "id": n + 1})
+            dims.append({"insertions": ins})
+        which = rng.randrange(2)
+        dims[which]["order"] = {"type": "opposing_insertion", "insertion_id": rng.choice([1, 2]),
+                                "measure": rng.choice(["count_weighted", "table_percent", "col_percent", "row_percent",
+                                                       "count_unweighted", "z_score"]),
+                                "direction": rng.choice(["ascending", "descending"])}
+        case["transforms"] = {"rows_dimension": dims[0], "columns_dimension": dims[1]}
+        fam = "two"
+    elif fam == "two":
         kinds = [rng.choice(KINDS), rng.choice(KINDS)]
         case = sc.gen_case(rng, kinds=kinds, max_n=4)
         vars_, _ = sc.load(case)
-        case["transforms"] = {"rows_dimension": gen_dim_transforms(rng, vars_[0]),
-                              "columns_dimension": gen_dim_transforms(rng, vars_[1])}
+        if rng.random() < 0.5:
+            case["transforms"] = {"rows_dimension": gen_dim_transforms(rng, vars_[0]),
+                                  "columns_dimension": gen_dim_transforms(rng, vars_[1])}
+        else:
+            # the full transform grammar of C05 (all sort-by-value orders, fixed lists, hidden insertions)
+            cd = c05.gen_dim(rng, vars_[1], vars_[0], [])
+            rd = c05.gen_dim(rng, vars_[0], vars_[1], cd.get("insertions", []))
+            if "order" in cd and cd["order"].get("type") == "opposing_insertion":
+                cd["order"]["insertion_id"] = rng.choice([i.get("id") for i in rd.get("insertions", [])] + [78])
+            # keep only order types the library implements for BOTH axes (sorting columns by a marginal is not
+            # implemented - the spec is silently ignored - and sorting rows by a derived array column has no column twin)
+            for d in (rd, cd):
+                o = d.get("order")
+                if o and (o.get("type") == "marginal" or
+                          (o.get("type") == "opposing_insertion" and (vars_[0].is_array or vars_[1].is_array))):
+                    del d["order"]
+            case["transforms"] = {"rows_dimension": rd, "columns_dimension": cd}
+        if rng.random() < 0.4:
+            tot = 1
+            for x in gen.raw_shape(vars_):
+                tot *= x
+            case["measures"] = {
+                name: [gen.frac_str(Fraction(rng.randint(0, 60), rng.choice([1, 2, 4]))) if rng.random() < 0.9 else None
+                       for _ in range(tot)]
+                for name in rng.sample(["mean", "sum", "stddev"], rng.randint(1, 2))}
     else:
         case = sc.gen_case(rng, kinds=["ca"], max_n=3)
         case["transforms"] = {}
@@ -120,11 +196,14 @@ def evaluate(case, louts, ctx):
     tr = case.get("transforms", {})
     if fam == "two":
         A, B = vars_
-        respAB = gen.cube_response([A, B], survey, w)
-        respBA = gen.cube_response([B, A], [(wt, [ans[1], ans[0]]) for wt, ans in survey], w)
+        meas = case.get("measures") or {}
+        shA, shB = gen.raw_shape([A]), gen.raw_shape([B])
+        respAB = gen.cube_response([A, B], survey, w, extra_measures={n: _payload(d) for n, d in meas.items()} or None)
+        respBA = gen.cube_response([B, A], [(wt, [ans[1], ans[0]]) for wt, ans in survey], w,
+                                   extra_measures={n: _payload(_transpose_flat(d, shA, shB)) for n, d in meas.items()} or None)
         trAB = copy.deepcopy(tr)
-        trBA = {"rows_dimension": copy.deepcopy(tr.get("columns_dimension", {})),
-                "columns_dimension": copy.deepcopy(tr.get("rows_dimension", {}))}
+        trBA = {"rows_dimension": _mirror_dim(tr.get("columns_dimension", {})),
+                "columns_dimension": _mirror_dim(tr.get("rows_dimension", {}))}
         kinds = [A.kind, B.kind]
     else:
         ca = vars_[0]
